@@ -45,7 +45,7 @@ def run_one(sid, tier, inplace, extra_props):
         shutil.rmtree(tree, ignore_errors=True)
         os.makedirs(os.path.dirname(tree), exist_ok=True)
         sh(["rsync", "-a", "--exclude", ".git", "/repo/", tree + "/"])
-        p = sh(["patch", "-p1", "-s", "-i", patch], cwd=tree)
+        p = sh(["patch", "--no-backup-if-mismatch", "-p1", "-s", "-i", patch], cwd=tree)
     if p.returncode != 0:
         res["error"] = "patch does not apply: " + (p.stdout + p.stderr)[-500:]
         return res
